@@ -423,6 +423,8 @@ def main():
                 extra.append(j.result())
         if import_problems:
             extra.append({'name': 'imports', 'undecided': import_problems, 'failures': []})
+        if tier == 'thorough' and not os.environ.get('VERIF_NO_EVIDENCE'):
+            extra += thorough_extras(prop)
         rc = report(prop, tier, seed, results, extra, time.time() - t0)
     finally:
         if not a.keep:
@@ -430,6 +432,30 @@ def main():
         else:
             print('scratch kept at', work)
     sys.exit(rc)
+
+
+def thorough_extras(prop):
+    """thorough tier only: (1) the seeded mutations of this property must give their recorded outcome (machinery self-test);
+    (2) the replay program is swept over its whole domain on the unchanged tree - a discrepancy there is reported as a NOTE in the
+    evidence (it decides nothing: it would mean a defect outside the contracts' coverage, or a wrong oracle)."""
+    out = []
+    t0 = time.time()
+    p = subprocess.run([sys.executable, os.path.join(HERE, 'selftest.py'), prop], capture_output=True, text=True)
+    rows = [l for l in p.stdout.split('\n') if l.strip() and not l.startswith('SELFTEST')]
+    st = {'name': 'selftest (seeded mutations)', 'failures': [], 'undecided': [], 'rows': rows, 'wall': round(time.time() - t0, 1),
+          'cmd': 'python3 tools/selftest.py %s' % prop}
+    if p.returncode != 0:
+        st['undecided'].append('a seeded mutation recorded as detected is no longer detected: ' + ' | '.join(r for r in rows if ' detected ' not in r)[:300])
+    out.append(st)
+    try:
+        import falsify
+        r = falsify.run(prop, REPO)
+        out.append({'name': 'replay-program sweep on the unchanged tree', 'failures': [], 'undecided': [], 'cmd': r['cmd'], 'wall': r.get('wall'),
+                    'discrepancies': ['%s :: %s :: %s' % l for l in r['lines'][:10]], 'error': r['error'],
+                    'note': 'decides nothing; discrepancies here would be defects outside the contracts\' coverage'})
+    except Exception as e:
+        out.append({'name': 'replay-program sweep', 'failures': [], 'undecided': [], 'error': str(e)})
+    return out
 
 
 def run_unit_with_retries(u, info, repo, wd, tier, seed):
